@@ -2,6 +2,10 @@
    have been altered (concrete AES-256-GCM).  Same rows as Run.hist_enc, except that a failure
    of the encryption layer's initialisation is reported like any other failure to open
    (the implementation's ArchiveReader::from_config has one error path for both). *)
+From MLA Require Import Limit.
+From MLAGen Require Src.
+(* executable entry points: the production value of BINCODE_MAX_DESERIALIZE (the same in both flavours), file-local *)
+#[local] Instance RUN_LIMIT : Limit := MLAGen.Src.BINCODE_MAX_DESERIALIZE_prod.
 From MLA Require Import Base Stream Inst Run.
 Open Scope N_scope.
 
